@@ -84,6 +84,18 @@ def build(scratch, race):
     return out, "built in %.1fs" % (time.time() - t0)
 
 
+def build_owsingle(scratch):
+    out = scratch + "/ow-single"
+    if os.path.exists(out):
+        return {"VERIF_OWSINGLE": out}, "ow-single already built"
+    t0 = time.time()
+    r = run([GO, "build", "-trimpath", "-modfile=" + scratch + "/go.mod", "-o", out,
+             "github.com/flowmatters/openwater-core/cmd/ow-single"], cwd=os.path.join(VERIF, "harness"), timeout=1800)
+    if r.returncode != 0:
+        return None, r.stdout
+    return {"VERIF_OWSINGLE": out}, "ow-single built in %.1fs" % (time.time() - t0)
+
+
 def build_cabi(scratch):
     lib = scratch + "/libopenwater.so"
     drv = scratch + "/cdriver"
@@ -140,6 +152,11 @@ def replay_once(binary, prop, cfg, replay_path, scratch, race, tag):
         if env2 is None:
             die2("cannot build libopenwater.so for the replay:\n" + msg[-3000:])
         cfg["env"] = dict(cfg.get("env", {}), **env2)
+    if eng == "owsingle":
+        env2, msg = build_owsingle(scratch)
+        if env2 is None:
+            die2("cannot build ow-single for the replay:\n" + msg[-3000:])
+        cfg["env"] = dict(cfg.get("env", {}), **env2)
     out = "%s/replay.%s.jsonl" % (scratch, tag)
     log = out + ".log"
     e = worker_env(prop, cfg, "quick", 1, 0, 1, out, 600, replay=replay_path, race=race)
@@ -158,6 +175,9 @@ def replay_range(binary, prop, cfg, v, scratch, race, tag):
     pcfg = dict(cfg, engine=v.get("engine") or cfg["engine"])
     if pcfg["engine"] == "cabi":
         env2, _ = build_cabi(scratch)
+        pcfg["env"] = dict(pcfg.get("env", {}), **(env2 or {}))
+    if pcfg["engine"] == "owsingle":
+        env2, _ = build_owsingle(scratch)
         pcfg["env"] = dict(pcfg.get("env", {}), **(env2 or {}))
     e = worker_env(prop, pcfg, v.get("tier", "quick"), v.get("verif_seed", 1), lo, hi, out, 1200, race=race)
     with open(out + ".log", "w") as lf:
@@ -252,7 +272,15 @@ def main2(prop, cfg, tier, seed, scratch, instr_stats, replay_mode, t_start):
         rr = int(tcfg.get("race_runs", max(1, total_runs // 4)))
         phases.append((True, rr, cfg["engine"], {}))
     for extra in cfg.get("also", []):
-        phases.append((extra.get("race", False), int(extra["runs_" + tier]), extra["engine"], extra.get("env", {})))
+        env3 = dict(extra.get("env", {}))
+        if extra["engine"] == "owsingle":
+            env2, msg = build_owsingle(scratch)
+            if env2 is None:
+                print(msg[-6000:])
+                die2("cmd/ow-single does not build from the current working tree")
+            notes.append(msg)
+            env3.update(env2)
+        phases.append((extra.get("race", False), int(extra["runs_" + tier]), extra["engine"], env3))
     if cfg.get("cabi"):
         env2, msg = build_cabi(scratch)
         if env2 is None:
